@@ -252,25 +252,22 @@ class ZlibStub:
     def clen(n):
         return n // 2 + 3
 
-    def length_range(self, data):
-        data = builtins.bytes(data)
-        hi = len(data) + 13
-        if len(data) > 4096:
-            # large payloads: everything from (best real compression + the
-            # shortest padding) upwards is reachable by construction
-            c = _zlib.compressobj(9, _zlib.DEFLATED, -15)
-            body = c.compress(data) + c.flush(_zlib.Z_SYNC_FLUSH)
-            return 2 + len(body) + 4 + 2, hi
-        lo = hi
-        while lo > 2 and zlib_of_length(data, lo - 1) is not None:
-            lo -= 1
-        return lo, hi
-
-    def length_candidates(self, n, lo, hi):
-        """all lengths when there are few; otherwise the ends, the lengths
+    def lengths(self, data):
+        """the compressed lengths offered for `data`: every length up to
+        len+13 that real deflate (with padding blocks) can produce when
+        there are few; for large payloads the ends of the range, the lengths
         around the inflated size and around the VarInt width changes"""
-        if hi - lo <= 160:
-            return list(range(lo, hi + 1))
+        data = builtins.bytes(data)
+        n = len(data)
+        hi = n + 13
+        if n <= 4096:
+            return [L for L in range(2, hi + 1)
+                    if zlib_of_length(data, L) is not None]
+        # everything from (best real compression + the shortest padding)
+        # upwards is reachable by construction
+        c = _zlib.compressobj(9, _zlib.DEFLATED, -15)
+        body = c.compress(data) + c.flush(_zlib.Z_SYNC_FLUSH)
+        lo = 2 + len(body) + 4 + 2
         c = {lo, lo + 1, hi - 1, hi, n - 1, n, n + 1}
         for b in (1 << 7, 1 << 14, 1 << 21):
             c |= {b - 2, b - 1, b, b + 1}
@@ -286,8 +283,7 @@ class ZlibStub:
             raw = builtins.bytes(b if isinstance(b, int) else b.as_long()
                                  for b in items)
             k = len(self.table)
-            lo, hi = self.length_range(raw)
-            cands = self.length_candidates(len(raw), lo, hi)
+            cands = self.lengths(raw)
             L = cands[concretize(ctx.int('zlen%d' % k, 0, len(cands) - 1))]
             if not self.sym or L > 4096:
                 # (large outputs: the real stream also in the symbolic run)
